@@ -14,6 +14,7 @@ import (
 	"path/filepath"
 	"strconv"
 	"strings"
+	"sync"
 	"syscall"
 
 	"github.com/AdguardTeam/AdGuardHome/internal/dhcpd"
@@ -50,6 +51,49 @@ type SaveResult struct {
 	Log []string `json:"log,omitempty"`
 	// Note carries save-specific details (e.g. the refresh response).
 	Note string `json:"note,omitempty"`
+	// Muts lists the static-lease changes an "overlap" save issued at the
+	// same time from separate goroutines.
+	Muts []Mut `json:"muts,omitempty"`
+}
+
+// Mut is one static-lease change of an overlapping save.
+type Mut struct {
+	Route string `json:"route"` // add_static_lease
+	N     int    `json:"n"`     // number of the generated lease
+	Host  string `json:"host"`
+	Err   string `json:"err,omitempty"`
+}
+
+// OverlapHostLens returns the hostname lengths of the k leases an overlap
+// save adds (pairwise different).
+func OverlapHostLens(base, k int) []int {
+	if base < 1 {
+		base = 1
+	}
+	if base > 190 {
+		base = 190
+	}
+	return []int{base, base + 1, base + 3, base + 7}[:k]
+}
+
+// lockedWriter serialises writers of the in-memory log.
+type lockedWriter struct {
+	mu sync.Mutex
+	w  io.Writer
+}
+
+func (l *lockedWriter) Write(b []byte) (int, error) {
+	l.mu.Lock()
+	defer l.mu.Unlock()
+	return l.w.Write(b)
+}
+
+// LeaseBody is the request body of the static-lease handlers for the n-th
+// generated lease.
+func LeaseBody(n int, host string) []byte {
+	ip, mac := LeaseAddr(n)
+	body, _ := json.Marshal(map[string]string{"mac": mac.String(), "ip": ip.String(), "hostname": host})
+	return body
 }
 
 // HelperResult is written to OutDir/result.json.
@@ -187,9 +231,7 @@ func (l *listServer) RoundTrip(r *http.Request) (*http.Response, error) {
 // leaseCall adds or removes the n-th generated static lease through the real
 // HTTP handler.
 func leaseCall(mux *env.Mux, route string, n int, s Save, sr *SaveResult) error {
-	ip, mac := LeaseAddr(n)
-	body, _ := json.Marshal(map[string]string{"mac": mac.String(), "ip": ip.String(), "hostname": HostName(s.Seed, n, s.Len)})
-	code, resp, err := mux.Do(http.MethodPost, "/control/dhcp/"+route, body)
+	code, resp, err := mux.Do(http.MethodPost, "/control/dhcp/"+route, LeaseBody(n, HostName(s.Seed, n, s.Len)))
 	if err != nil {
 		return err
 	}
@@ -233,8 +275,9 @@ func HelperMain(specPath string) int {
 	// All log output goes to memory: no write(2) of the saving thread other
 	// than the ones of the save itself and of the bookkeeping below.
 	logBuf := &bytes.Buffer{}
-	slog.SetDefault(slog.New(slog.NewTextHandler(logBuf, nil)))
-	stdlog.SetOutput(logBuf)
+	logW := &lockedWriter{w: logBuf}
+	slog.SetDefault(slog.New(slog.NewTextHandler(logW, nil)))
+	stdlog.SetOutput(logW)
 	stdlog.SetFlags(0)
 
 	res := &HelperResult{}
@@ -315,6 +358,46 @@ func HelperMain(specPath string) int {
 				nLease--
 				err = leaseCall(mux, "remove_static_lease", nLease, added[len(added)-1], &sr)
 				added = added[:len(added)-1]
+			}
+		case "overlap":
+			// k static leases are added at the same time from k goroutines
+			// (they run on other threads than this, pinned, one): each add
+			// ends in its own dbStore -> writeDB, and the saves overlap.
+			k := s.N
+			if k < 2 {
+				k = 2
+			} else if k > 4 {
+				k = 4
+			}
+			muts := make([]Mut, k)
+			for i, hl := range OverlapHostLens(s.Len, k) {
+				muts[i] = Mut{Route: "add_static_lease", N: nLease, Host: HostName(s.Seed, nLease, hl)}
+				nLease++
+			}
+			start := make(chan struct{})
+			wg := &sync.WaitGroup{}
+			for i := range muts {
+				wg.Add(1)
+				go func() {
+					defer wg.Done()
+					m := &muts[i]
+					<-start
+					code, resp, derr := mux.Do(http.MethodPost, "/control/dhcp/"+m.Route, LeaseBody(m.N, m.Host))
+					switch {
+					case derr != nil:
+						m.Err = derr.Error()
+					case code != http.StatusOK:
+						m.Err = fmt.Sprintf("%d %s", code, strings.TrimSpace(string(resp)))
+					}
+				}()
+			}
+			close(start)
+			wg.Wait()
+			sr.Muts = muts
+			for _, m := range muts {
+				if m.Err != "" {
+					err = fmt.Errorf("%s #%d: %s", m.Route, m.N, m.Err)
+				}
 			}
 		case "refresh":
 			server.body = FilterBody(s)
